@@ -4,6 +4,7 @@
 //! (p+1)/2, p−1, equal, adjacent, random}; vectors: empty, full, several lengths. Boundary
 //! classes come first and do not depend on the seed; random operands are appended from the
 //! seeded stream. `cap` = number of inputs kept per entry (quick 6, thorough 25).
+#![allow(dead_code)] // also mounted by c09.rs, which uses a subset
 
 use ff::Field;
 use midnight_curves::Fq as F;
@@ -12,7 +13,9 @@ use num_traits::One;
 use rand::Rng;
 use rand_chacha::ChaCha8Rng;
 
-use super::entry::{big, fe, p, two_pow, BinOp, CmpOp, EqOp, Kind, Ty, V, VEC_RESIZES, VEC_SHAPES};
+use mzv::engines::catalogue::OpSpec;
+
+use super::entry::{big, fe, p, two_pow, BinOp, CmpOp, Entry, EqOp, Kind, Ty, V, VEC_RESIZES, VEC_SHAPES};
 
 fn f(n: u64) -> F {
     F::from(n)
@@ -427,6 +430,35 @@ fn vec_elems(rng: &mut ChaCha8Rng, ty: Ty, len: usize) -> Vec<V> {
 
 /// inputs of one entry; `cap` inputs are kept (boundary classes first)
 pub fn inputs_for(kind: &Kind, thorough: bool, rng: &mut ChaCha8Rng) -> Vec<Vec<V>> {
+    let (mut out, cap) = inputs_pool(kind, thorough, rng);
+    out.truncate(cap);
+    out
+}
+
+/// Every catalogue entry with ADMISSIBLE inputs only (`reference(input).is_some()`), chosen to
+/// steer data-dependent off-circuit branches (zero / non-zero, equal / unequal / adjacent
+/// operands, carries and 2^k boundaries, (p±1)/2, p−1, vector lengths 0 / mid / MAX).
+/// Deterministic: a fixed seed feeds the few random operands. Up to 6 inputs per entry in
+/// quick, 20 in thorough (entries over bits / tiny domains have fewer admissible inputs).
+/// Used by C09 (structure must not depend on the witness).
+#[allow(dead_code)]
+pub fn catalogue_for_structure(thorough: bool) -> Vec<(Entry, Vec<Vec<V>>)> {
+    let mut out = vec![];
+    for kind in catalogue(thorough) {
+        let entry = Entry { kind: kind.clone(), cols: 1 };
+        let mut rng = mzv::common::rng_for(0xC09, &format!("structure-{}", kind.label()));
+        let (mut inputs, _) = inputs_pool(&kind, true, &mut rng);
+        inputs.retain(|x| entry.reference(x).is_some());
+        inputs.truncate(if thorough { 20 } else { 6 });
+        if !inputs.is_empty() {
+            out.push((entry, inputs));
+        }
+    }
+    out
+}
+
+/// all generated inputs (boundary classes first) and the number the C04 tiers keep
+fn inputs_pool(kind: &Kind, thorough: bool, rng: &mut ChaCha8Rng) -> (Vec<Vec<V>>, usize) {
     use Kind::*;
     let cap = if thorough { 25 } else { 6 };
     let nr = if thorough { 16 } else { 1 };
@@ -459,7 +491,13 @@ pub fn inputs_for(kind: &Kind, thorough: bool, rng: &mut ChaCha8Rng) -> Vec<Vec<
             v
         }
         Add | Sub | Mul(_) | Div => two_n(pairs_general(rng, nr)),
-        Neg | Inv | Inv0 | AddConst(_) | MulConst(_) | Square | Pow(_) | AssertNonZero | IsZero | AssertQr | IsSquare | Sgn0 => one_n(nat_general(rng, nr)),
+        AssertQr | IsSquare => {
+            // 7 generates the multiplicative group (non-residue); 4 and 49 are squares
+            let mut v = vec![F::ZERO, f(7), f(4), F::ONE, -f(7), rnd(rng), f(49), -F::ONE];
+            v.extend(nat_general(rng, nr));
+            one_n(v)
+        }
+        Neg | Inv | Inv0 | AddConst(_) | MulConst(_) | Square | Pow(_) | AssertNonZero | IsZero | Sgn0 => one_n(nat_general(rng, nr)),
         AssertZero => one_n(vec![F::ZERO, F::ONE, -F::ONE, rnd(rng), fe(&half_up())]),
         IsEq { ty, .. } | AssertEq { ty, .. } => typed_pairs(rng, *ty, nr).into_iter().map(|(a, b)| vec![a, b]).collect(),
         IsEqFixed { c, .. } | AssertEqFixed { c, .. } => match c {
@@ -659,7 +697,6 @@ pub fn inputs_for(kind: &Kind, thorough: bool, rng: &mut ChaCha8Rng) -> Vec<Vec<
         seen.push(key);
         fresh && kind.precondition(x)
     });
-    out.truncate(cap_override.unwrap_or(cap));
     let _ = big;
-    out
+    (out, cap_override.unwrap_or(cap))
 }
